@@ -272,6 +272,8 @@ def _hasattr(I, o, n):
 
 @stub("builtins.getattr")
 def _getattr(I, o, n, *d):
+    if d and isinstance(o, SObj) and n not in o.fields and not (o.cls is not None and hasattr(o.cls, n)):
+        return d[0]
     try:
         return I.getattr(o, n)
     except PyRaise as e:
